@@ -18,7 +18,7 @@ Oracle, clause by clause (DESIGN.md section 4, C10):
  (v)   every decode starts at a boundary of the declared-length framing, consumes no more than the declared
        length, and what is delivered is exactly what the declared bytes decode to on their own; nothing but a
        HELLO is delivered from a frame whose version byte is not 1;
- (vi)  no exception escapes the loop and the loop does not end.
+ (vi)  no exception escapes the loop, the loop does not end, and it never hands a closed socket to select.
 """
 import struct
 
@@ -48,7 +48,8 @@ RULE = ("a case is (side, victim item list with corruption ops, 1-2 sibling mess
         "optional socket fault script {peer: silent/more data/EOF/reset/timeout} x {send: ok/EAGAIN/EPIPE/ECONNRESET} x {same wake-up, "
         "recv first, send first} applied after a chosen chunk); "
         "optionally a second victim (item list, accept position, delay in rounds); "
-        "non-trivial when a fault script hits a victim that owes a reply, or two victims are both corrupted, or when the victim stream differs from well-formed traffic, at least one intact valid message follows the first "
+        "non-trivial when a fault script hits a victim that owes a reply, or two victims are both corrupted, or the controller "
+        "disconnects a handshake-violating victim before its peer hangs up, or when the victim stream differs from well-formed traffic, at least one intact valid message follows the first "
         "corrupted item, and a sibling still has undelivered traffic when the corrupted bytes are processed (siblings always get a "
         "second chunk and a probe after the victim's last bytes); distinct by SHA-1 of the canonical JSON of the case")
 ASSUMPTIONS = [
@@ -71,7 +72,9 @@ EXHAUSTIVE_SCOPE = {
            "truncation (and every second type/version value) is also run with the corrupted message as the last thing in the buffer "
            "when it is read. Tails: 1..7 bytes (2 fills) beyond the fixed part and beyond the complete variable part of every "
            "message kind carrying actions / stats bodies / queues / ports, declared in the header length and additionally in each "
-           "embedded length, last in the read and with traffic behind. Socket fault grid: a victim that owes a reply "
+           "embedded length, last in the read and with traffic behind. Handshake: HELLO, FEATURES_REPLY and then a foreign BARRIER_REPLY / ERROR / second "
+           "FEATURES_REPLY (the controller itself disconnects), whole and message by message, with and without EOF. Oversize: unknown-type, wrong-fixed-part, bad-version and "
+           "bad-actions_len frames of 65522..65535 declared bytes, whole body present, between/after valid traffic. Socket fault grid: a victim that owes a reply "
            "(switch: BAD_TYPE error, BAD_LEN error, echo reply, features reply; controller: echo reply, features request) x peer "
            "{silent, more data, EOF, ECONNRESET, ETIMEDOUT} x send {ok, EAGAIN, EPIPE, ECONNRESET} x {reported in the same wake-up, "
            "recv first, send first} x victim first/last x 1-2 siblings. Two victims: every ordered pair of 6 offender kinds (bad "
@@ -603,6 +606,10 @@ def run_case(case):
         out.label("eof")
     after = corrupted and any(s > first_bad for s, _ in intact)
     out.nontrivial = bool(corrupted and after and (sib_pending_at_bad or bad_round is None))
+    if side == "ctl" and getattr(v.handle, "disconnected", False) and not v.sock.eof:
+      out.label("controller-gave-up-first")
+      if case.get("label") == "handshake":
+        out.nontrivial = True
     if faults and "fault:reply-owed" in out.labels and (faults.get("send", "ok") != "ok" or faults.get("recv", "none") not in ("none", "data")):
       out.nontrivial = True
     if corrupted and not after:
@@ -621,7 +628,7 @@ def _cause(vstream, tap, base_pos, direction):
   pos = base_pos
   for e in reversed(tap.events):
     if e[0] == "D":
-      pos = e[1]
+      pos = max(pos, e[1])        # a decode in progress starts at or beyond the buffer head; a finished one lies before it
       break
   return R.header_class(vstream, pos, direction), pos
 
@@ -655,13 +662,21 @@ def _judge(out, case, side, direction, loop, conns, roles, victims, sib_expect, 
       exc = loop.log.exceptions[-1] if loop.log.exceptions else None
       ph = _phase(exc) if exc is not None else "?"
       out.fail("loop-died", "the %s I/O loop ended (all connections lose service) after %r while the victim's receiver was at "
-               "stream offset %d (%s)" % (side, exc, pos, cause), side=side, cause=cause, phase=ph)
+               "stream offset %d (%s)" % (side, exc, pos, cause), side=side, cause=cause, phase=ph,
+               exc=type(exc).__name__ if exc is not None else "?")
     else:
       exc = loop.ended
       out.fail("exception-escapes-loop", "%r escaped the %s I/O loop (victim at stream offset %d, %s)" % (exc, side, pos, cause),
                side=side, cause=cause, phase=_phase(exc) if isinstance(exc, BaseException) else "?")
     return
   selected = loop.selected
+  for x in selected:
+    sk = getattr(x, "sock", None) or getattr(x, "socket", None)
+    if sk is not None and getattr(sk, "closed", False):
+      out.fail("closed-socket-selected", "the %s loop keeps selecting on %s although its socket has been closed: a real select() raises "
+               "on it (EBADF / negative descriptor) and the loop stops serving everybody" % (side, getattr(sk, "name", "?")),
+               side=side, cause=cause)
+      break
 
   # ---- (ii), (iii): siblings
   for i, ex in enumerate(sib_expect):
@@ -993,6 +1008,64 @@ def enum_tails(tier):
               yield _scenario(side, "tail", {"m": sp, "ops": ops}, 1 + idx % 2, (idx // 2) % 2, idx, alone=alone)
 
 
+def enum_handshake(tier):
+  """Well-framed but protocol-violating handshakes on the controller side: the controller itself gives up on the
+  connection (con.disconnect()) before the peer hangs up.  Containment clauses as for malformed input."""
+  idx = 0
+  T = R
+  hello, feat = _spec(T.HELLO, xid=1), _spec(T.FEATURES_REPLY, 1, 1, xid=2)
+  endings = [
+    [_spec(T.BARRIER_REPLY, xid=0xdeadbeef)],                               # not the controller's handshake barrier
+    [_spec(T.BARRIER_REPLY, xid=0xdeadbeef), _spec(T.ECHO_REQUEST, 3, xid=9)],
+    [_spec(T.ERROR, 12, 1, xid=0xdeadbeef), _spec(T.BARRIER_REPLY, xid=0)],
+    [dict(feat, xid=3), _spec(T.BARRIER_REPLY, xid=0xdeadbeef)],            # features twice
+  ]
+  for end in endings:
+    for cuts in ("whole", "each"):
+      for vpos in (0, 1, 2):
+        for eof in (False, True):
+          idx += 1
+          items = [{"m": hello}, {"m": feat}] + [{"m": m} for m in end]
+          c = {"side": "ctl", "label": "handshake", "victim": items, "vpos": vpos,
+               "sib": [[_valid("ctl", idx + 1), _valid("ctl", idx + 4), _valid("ctl", idx + 6)], [hello, dict(feat, f=2), _valid("ctl", idx)]]}
+          if cuts == "each":
+            pos, cc = 0, []
+            for it in items[:-1]:
+              pos += len(R.build(it["m"]).data)
+              cc.append(pos)
+            c["vcuts"] = cc
+          if eof:
+            c["eof"] = True
+          yield c
+
+
+def enum_oversize(tier):
+  """Corrupted frames at the top of the 16-bit length range, whole body present: an error reply that quotes the
+  frame has to stay within 65535 bytes itself."""
+  idx = 0
+  T = R
+  for side in ("sw", "ctl"):
+    big = T.ECHO_REQUEST
+    for total in (65522, 65523, 65524, 65525, 65528, 65534, 65535):
+      kinds = [
+        ("unknown-type", {"m": _spec(big, total - 8), "ops": [{"op": "u8", "off": 1, "v": 99}]}),
+        ("unknown-type-255", {"m": _spec(T.VENDOR, total - 12), "ops": [{"op": "u8", "off": 1, "v": 255}]}),
+        # a body whose fixed part disagrees with the (correct) declared length
+        ("bad-length", {"m": _spec(big, total - 8), "ops": [{"op": "u8", "off": 1, "v": T.SET_CONFIG if side == "sw" else T.GET_CONFIG_REPLY}]}),
+        ("bad-version", {"m": _spec(big, total - 8), "ops": [{"op": "u8", "off": 0, "v": 2}]}),
+      ]
+      if side == "sw":
+        po = _spec(T.PACKET_OUT, total - 40, 1)
+        while len(R.build(po).data) < total:
+          po["n"] += 1
+        kinds.append(("bad-actions-len", {"m": po, "ops": [{"op": "u16", "off": 14, "v": 0xfff8}]}))
+      for name, item in kinds:
+        for place in (1, 2):
+          for alone in (False, True):
+            idx += 1
+            yield _scenario(side, "oversize:" + name, item, place, idx % 2, idx, nsib=1, alone=alone)
+
+
 def enum_faults(tier):
   """Socket fault sequences on a victim that owes a reply: {peer: silent | more data | EOF | reset | timeout} x
   {send: ok | EAGAIN | EPIPE | ECONNRESET} x {reported in the same wake-up | recv first | send first}."""
@@ -1173,6 +1246,8 @@ def plan(tier):
     Enum("embedded", lambda: enum_embedded(tier), shards=16),
     Enum("truncation", lambda: enum_trunc(tier), shards=16),
     Enum("tails", lambda: enum_tails(tier), shards=16),
+    Enum("oversize", lambda: enum_oversize(tier), shards=16),
+    Enum("handshake", lambda: enum_handshake(tier), shards=8),
     Enum("faults", lambda: enum_faults(tier), shards=16),
     Enum("two-victims", lambda: enum_two_victims(tier), shards=16),
     Hyp("mutation", lambda: case_strategy(tier), examples=n, shards=16),
